@@ -23,3 +23,6 @@ def run(prog, chk):
     # (an element is constructed over a live one) and slots sit in blocks owned by the other container
     C.swap_handover(prog, chk, "C04.f")
     c04_alias.alias_rules(prog, chk, "C04.e")
+    # a destroyed node must not stay reachable: removal unlinks it from the order list and (hash containers) from its bucket chain,
+    # repairing the chain successor's back pointer, so that no later operation writes through or compares against the dead node
+    C.unlink_idiom(prog, chk, "C04.g", ("List", "Map", "MultiMap", "HashMap", "HashSet"))
